@@ -20,14 +20,14 @@ Definition bin_rt (op : binop) (l r : ty) : oty :=
   | FunctionCall => lift_opt (fn_return_type l)
   | Assign => Ok r
   | LShift | RShift | Modulo => Ok TInt
-  | _ => lift_opt (mut_element_type l)
+  | _ => lift_opt (mut_element_type_spec l)
   end.
 
 Definition un_rt (op : unop) (t : ty) : oty :=
   match op with
   | USum | UProduct => lift_opt (iter_element t)
   | UNot | UUnaryMinus => Ok t
-  | UIndirection => lift_opt (mut_element_type t)
+  | UIndirection => lift_opt (mut_element_type_spec t)
   | UFunctionCall => lift_opt (fn_return_type t)
   | UCollect => match iter_element t with Some e => Ok (TArr e) | None => Panic end
   | UIter => match element_type t with Some e => Ok (TFun [] (TTup [TBool; e])) | None => Panic end
